@@ -115,6 +115,23 @@ let handle fields impl : string option * string list =
          if Util.bytes_of_hex h <> body then ["findcontent-wrong-bytes asker-returns-bytes-that-are-not-the-reply-payload"] else []
        | _ -> []) in
     (Some m, mons)
+  | ["uc"; own; pv; op; h] ->
+    (* stream framing including the version lookup on the peer's record (C19's model of getOrStoreHighestVersion, empty cache) *)
+    let vs str = List.map (fun ch -> n_ (Char.code ch - 48)) (List.init (String.length str) (String.get str)) in
+    let entry = (match pv with "M" -> PvMissing | "X" -> PvMalformed | "E" -> PvList [] | str -> PvList (vs str)) in
+    let d = b (Util.bytes_of_hex h) in
+    let res = if op = "enc" then node_encode_utp (vs own) empty_cache (n_ 0) entry d
+      else node_decode_utp (vs own) empty_cache (n_ 0) entry d in
+    let m = (match res with Ok x -> "ok " ^ Util.hex_of_bytes (ub x) | Err _ -> "err" | Panic -> "panic") in
+    let m = if m = "panic" && starts impl "panic" then impl else m in
+    let mons =
+      if pv = "M" && String.length own > 0 && own.[0] = '0' then
+        (* wire spec: no pv entry = version 0 = the stream carries the stored bytes as they are, in both directions *)
+        (if impl <> "ok " ^ h then [Printf.sprintf "findcontent-wrong-bytes legacy-peer-without-pv-entry-%s-gives-%s" op (if String.length impl > 40 then String.sub impl 0 40 else impl)] else [])
+      else if starts impl "ok" && starts m "ok" && impl <> m then
+        ["findcontent-wrong-bytes stream-framing-differs-from-the-negotiated-version " ^ op]
+      else [] in
+    (Some m, mons)
   | ["lfc"; _; _; size; ";"; want] ->
     (* live transfer: exercised, not proved.  Expected: selector raw (1) up to the threshold, connection id (0) above; the bytes obtained are the stored ones *)
     let sz = int_of_string size in
